@@ -176,10 +176,13 @@ def v4(run, project):
     f = base.functions().get("_INT.is_valid")
     if f is None:
         raise AnalysisError("C04: _INT.is_valid not found")
-    rets = [s for s in f.body if isinstance(s, ast.Return)]
-    ok = len(rets) == 1 and len(f.body) <= 2 and match(rets[0].value, "self._value in self._valid_values") is not None
-    run.ob("V4", ok, "_INT.is_valid is membership of the value in the type's allowed set",
-           f"is_valid returns `{norm(rets[0].value) if rets else '?'}`", module=base, node=f, func="_INT.is_valid")
+    rets = [s for s in walk_no_nested(f) if isinstance(s, ast.Return)]
+    bad = [r for r in rets if r.value is None or match(r.value, "self._value in self._valid_values") is None]
+    ok = bool(rets) and not bad
+    run.ob("V4", ok, "_INT.is_valid is membership of the value in the type's allowed set on every path",
+           f"is_valid has a path returning `{norm(bad[0].value) if bad and bad[0].value is not None else None}`: on that path a value is "
+           "reported valid/invalid without consulting the declared set" if bad else "is_valid has no return", module=base,
+           node=bad[0] if bad else f, func="_INT.is_valid", construct="_INT.is_valid returns")
     # no subclass overrides is_valid
     for modname, mod in project.modules.items():
         if not modname.startswith("tpmstream.spec"):
